@@ -16,14 +16,26 @@ CLAIMED = {
             "runtime monitor: lifecycle replay through the real provisioner + lifecycle controller + kubelet actor with a hostile provider; every pod on a new NodeClaim judged inadmissible on every active existing node (independent oracle, provider ground truth); API read log watched for scheduling passes while a NodeClaim is unlaunched",
             "Pods without inter-pod constraints or preferences are provisioned and deliberately left pending while each created NodeClaim moves at its own pace through created/launched/node-appeared/registered/initialized; provisioning is re-run after every step (3-8 passes per case) and each pod placed on new capacity must be inadmissible on all existing/in-flight nodes with their final load, nodes marked for deletion must not receive pods, and the real Provisioner.Reconcile must not reach a scheduling pass while a claim is unlaunched. Held-on-observed.",
             "Judges 'could admit' with the constraints Karpenter evaluates for the placed copy (first required OR-term, PreferNoSchedule treated as hard) so that only placements wrong under every reading alarm; daemonsets select on NodePool-level labels only; trusts oracle, fake API, provider ground truth."),
+    "C17": ("exploration", "DESIGN.md §3 C17",
+            "runtime monitoring of the real scheduler on generated inputs: per-reservation holder counts, pins and strict-mode deferrals judged on scheduling.Results and the serialized NodeClaim; DRA allocations judged from Results.DRAClaimAllocationMetadata against the generator's device table; Go race detector (diagnostic)",
+            "Generated worlds with dense reserved offerings (ids shared across instance types and weighted pools, capacities 0-3) and DRA populations (exclusive, consumable-capacity and partitionable devices; node-local, cluster-wide and template slices) are scheduled by the real Provisioner.Schedule under parallelism 1/4/8; per reservation id the claims able to launch into it never exceed the smallest advertised capacity, pinned claims carry exactly reserved + a finite compatible id set, strict mode defers instead of falling back, and no exclusive device / shared capacity / counter is over-committed over all co-occurring (NodeClaim, instance type) combinations. 14 of 15 mutants caught. Held-on-observed.",
+            "DRA breadth bounded (no request policies, match/distinct-attribute constraints, FirstAvailable/All modes, admin access); single pass only; trusts generators, the admissibility oracle and read-only reflection of the placeholder hostname."),
     "C19": ("exploration", "DESIGN.md §3 C19",
             "runtime monitor: real Scheduler.Solve/Truncate/Create on weighted pools; opener pod of each new NodeClaim judged (conservatively) infeasible on every heavier pool; instance types captured at the API boundary priced against the scheduler's pre-truncation options; race detector pass over parallel template evaluation",
             "2-5 weighted NodePools (ties, nil weights) x catalogs with price ties x parallelism 1-16 x lowered MaxInstanceTypes: the pod that opens each NodeClaim must be infeasible on every strictly heavier ready pool under a deliberately conservative single-pod feasibility oracle, and no sent instance type may be dearer (cheapest compatible available offering) than an option that truncation left out. Data races between Karpenter code paths during parallel evaluation count as violations. Held-on-observed.",
             "Weight oracle skips pools with limits, minValues, custom-label requirements or a reserved-offering deferral (counted); feasibility uses the constraints Karpenter evaluates for the placed copy. Trusts oracle and fake API."),
+    "C05": ("exploration", "DESIGN.md §3 C05",
+            "runtime monitor: (1) differential monitor of the real Budget/NodePool budget methods against an independent cron+budget evaluator at instants on and around schedule boundaries; (2) cluster monitor over consecutive reconciles of the real disruption controller counting newly selected + already disrupting nodes per pool and reason against the allowance at every instant of the reconcile interval",
+            "Budget lists (counts, percents, reasons absent/empty/subsets, cron schedules incl. macros, malformed and never-firing ones, durations) decoded with the real JSON decoder are evaluated ~1M times per quick run against a crontab(5)-derived evaluator; Karpenter allowing more than the most restrictive applicable active budget is a violation, stricter is a diagnostic. On generated clusters (incl. percentage-bound one-pod-per-node worlds with ready-but-uninitialised nodes, NotReady nodes, drift, commands left in flight, nodes going NotReady during the 15 s validation wait) no round may select more nodes than allowed. One genuine defect found and fixed (explicitly empty reasons list).",
+            "Trusts the cron evaluator (minute-tick brute force, UTC), the fake API (typed round trip drops empty slices, so `reasons: []` is covered by the differential monitor only) and the harness' knowledge of in-flight commands."),
     "C06": ("exploration", "DESIGN.md §3 C06",
             "runtime monitor: real disruption controller (all methods, validation delay on the virtual clock) on clusters grown through the real pipeline; every Underutilized/Empty command entering the orchestration queue judged by the admissibility oracle and an independent price oracle (provider ground-truth prices, worst admitted launch)",
             "Clusters with over-provisioned, underutilised and empty nodes (hostile provider launch choices, price ties, spot/on-demand inversions, unavailable and capacity-overridden offerings, frozen pools, SpotToSpot gate both ways) are reconciled by the real disruption controller; each accepted consolidation command must re-home every reschedulable candidate pod admissibly on initialized non-candidate nodes or one replacement, every replacement option must be strictly cheaper in its worst admitted launch, and Empty commands may only drop pods with non-positive eviction cost. Held-on-observed; two recorded findings.",
             "No world churn during the 15 s validation wait (the command's own simulation results are judged); no reserved offerings, PDBs or do-not-disrupt in these worlds (C07 covers blockers); trusts oracle, fake API, provider ground truth."),
+    "C10": ("exploration", "DESIGN.md §3 C10",
+            "runtime monitoring: API-boundary event-log monitors (eviction sub-resource creates and pod deletes with grace, judged atomically with the write) plus Queue.Has observation over PRNG-interleaved and concurrent drain passes / eviction-queue reconciles; Go race detector",
+            "The real node-termination controller, Terminator and eviction queue are executed on generated drain histories (pod mixes over priorities, owners, grace periods, do-not-disrupt forms, tolerations, terminating/terminal states; PDB layouts; NodeClaims with and without terminationGracePeriod; deadline annotation moved later/earlier/removed; pods replaced under the same name; clock swept across D-grace boundaries); every pod-removal call is judged by an independent re-implementation of the statement (removal mode, protected pods, tier ordering, deadline never pushed out). Part of the case list is repeated under the race detector, where a data race between Karpenter paths is a violation. Held-on-observed.",
+            "Trusts the harness' eviction/PDB and graceful-delete emulation, the virtual clock, a reflection read of Queue.source as the work-queue feed and the oracle in props/c10/oracle.go; deadline-based direct deletion of static/tolerating pods is not flagged (the statement allows it)."),
     "C13": ("exploration", "DESIGN.md §3 C13",
             "runtime monitor: NodeClaim objects captured at the API boundary (interceptor) compared key-by-key over a probe universe with the scheduler's in-memory requirements; NodePools pre-filtered by the real in-process CRD schema + CEL + RuntimeValidate pipeline; panics recovered per Create",
             "NodePool requirements are redrawn over all eight operators with several requirements per key (well-known enumerated / integer and custom keys, incl. Lt 0, Gt+NotIn, Gte+Lte), kept only if a real API server would accept them, and pushed through the real Solve → Truncate → Provisioner.Create path; for every created NodeClaim the serialized requirements, instance-type list, minValues floors, resource requests, labels, taints and hash annotations are judged against the in-memory decision and the template. Held-on-observed; two genuine defects found and fixed.",
